@@ -43,7 +43,7 @@ OPS = ['eq', 'ne', 'lt', 'le', 'gt', 'ge', 'add', 'sub', 'mul', 'div', 'in_units
 BOUNDS = {
     'quick': 'left operand: a quantity of each of %d dimensions (7 base, 8 derived); right operand: a quantity of each of '
              'the same dimensions or a plain number; %d operator forms incl. reflected ones; all magnitudes symbolic reals '
-             '(so equal, negative and zero magnitudes are paths)' % (len(DIMS), len(OPS)),
+             '(so equal, negative and zero magnitudes are paths); the same dimension reached by power/quotient/product' % (len(DIMS), len(OPS)),
     'thorough': 'same, longer budget per obligation',
 }
 STUBS = ['print() in pgradd.Units.qty silenced', 'GenericQuantity.__str__ (used only in error messages) returns a constant']
